@@ -142,6 +142,46 @@ fn check_bindings(src: &Sources, table: &[(String, (usize, usize), Binder)], st:
 /// Negative mutation: rename a declaration so that its uses become unbound, or duplicate a declaration.
 fn negative(p: &Program, rng: &mut Rng) -> Option<(Program, &'static str, Vec<(usize, Target)>)> {
     let mut q = p.clone();
+    if rng.chance(1, 4) {
+        // a declaration named like a name exported by an unqualified import, with the `use` before or after it:
+        // rejected as a duplicate, or bound to the local declaration — never to the import
+        let mut cands: Vec<(usize, usize, DeclId)> = Vec::new();
+        for (mi, m) in p.modules.iter().enumerate() {
+            for (si, s) in m.stmts.iter().enumerate() {
+                if let Stmt::Use { target, qual: None, .. } = s {
+                    for (d, dd) in p.decls.iter().enumerate() {
+                        if dd.module == *target && !dd.is_ref() {
+                            cands.push((mi, si, d));
+                        }
+                    }
+                }
+            }
+        }
+        if cands.is_empty() {
+            return None;
+        }
+        let (mi, si, d) = *rng.pick(&cands);
+        let id = q.decls.len();
+        q.decls.push(Decl {
+            module: mi,
+            name: p.decls[d].name.clone(),
+            params: vec![],
+            anns: vec![],
+            rhs: E::Obj(vec![]),
+            ty: Ty::Obj,
+        });
+        if rng.chance(1, 2) {
+            // the declaration first, the import after it
+            let u = q.modules[mi].stmts.remove(si);
+            q.modules[mi].stmts.insert(0, Stmt::Let { id });
+            let at = rng.range(1, q.modules[mi].stmts.len());
+            q.modules[mi].stmts.insert(at, u);
+        } else {
+            let at = rng.range(si + 1, q.modules[mi].stmts.len());
+            q.modules[mi].stmts.insert(at, Stmt::Let { id });
+        }
+        return Some((q, "import-clash", vec![(mi, Target::Decl(id)), (mi, Target::Decl(d))]));
+    }
     if rng.chance(1, 2) {
         // unbound: pick a declaration with at least one use
         let mut used: Vec<DeclId> = Vec::new();
@@ -187,6 +227,44 @@ fn negative(p: &Program, rng: &mut Rng) -> Option<(Program, &'static str, Vec<(u
             .unwrap_or(q.modules[m].stmts.len());
         q.modules[m].stmts.insert(pos.max(first_non_use), Stmt::Let { id });
         Some((q, "duplicate", vec![(m, Target::Decl(d))]))
+    }
+}
+
+fn check_import_clash(q: &Program, local: DeclId, imported: DeclId, module: usize, st: &mut Stats) -> Vec<Violation> {
+    let printed = print_program(q);
+    let src = sources_of(&printed);
+    let Ok(loaded) = pipeline::load(&src) else { return vec![] };
+    match (&loaded.mods, &loaded.err) {
+        (None, Some(e)) => {
+            let info = pipeline::lerr_info(e);
+            st.inc(&format!("negative:import-clash:rejected:{}", info.kind));
+            // other errors can precede it only if they are errors of another module compiled earlier
+            vec![]
+        }
+        (Some(mods), _) => {
+            st.inc("negative:import-clash:accepted");
+            // every unqualified use of the name in that module must be bound to the local declaration
+            let name = &q.decls[local].name;
+            let url = Sources::locator(&printed[module].file).url().to_string();
+            let local_range = printed[module].decl_ranges.iter().find(|(id, _)| *id == local).map(|(_, r)| (r.start, r.end));
+            let text = &printed[module].text;
+            for v in variables(mods) {
+                if v.module == url && v.var == v.ident && &text[v.ident.0..v.ident.1] == name.as_str() {
+                    // skip uses shadowed by a parameter or rec binder: they are bindings
+                    if let DefInfo::External { range, is_declaration: true, module: dm, .. } = &v.def {
+                        if Some(*range) != local_range || *dm != url {
+                            let _ = imported;
+                            return vec![Violation::new(
+                                "a use of a name declared in the module is bound to a same-named import",
+                                json!({"signature": "C08 import-overrides-local-declaration", "name": name, "sources": src.to_json()}),
+                            )];
+                        }
+                    }
+                }
+            }
+            vec![]
+        }
+        _ => vec![],
     }
 }
 
@@ -329,7 +407,13 @@ impl Workload for Binding {
         // negative variants
         let mut rng = Rng::for_case(seed, "c08neg", idx);
         if let Some((q, kind, victims)) = negative(&c.prog, &mut rng) {
-            v.extend(check_negative(&q, kind, &victims[0], st));
+            if kind == "import-clash" {
+                if let (Target::Decl(l), Target::Decl(i)) = (&victims[0].1, &victims[1].1) {
+                    v.extend(check_import_clash(&q, *l, *i, victims[0].0, st));
+                }
+            } else {
+                v.extend(check_negative(&q, kind, &victims[0], st));
+            }
         }
         if table.len() >= 5 {
             st.nontrivial(hash64(&c.sources.files));
